@@ -122,6 +122,24 @@ class Check(PropertyCheck):
                 lines.append(f"disp {j} {p} {m}")
             lines.append("wsnap")
             lines.append("trace")
+        if rng.random() < 0.25:
+            # a history observer is retired with its record and kept; a whole further episode (other order) is played: the record stays
+            hid = sum(1 for l in lines if l.startswith(("obs ", "obsn ", "obsn2 ", "cog")))     # (an upper bound is fine: unknown ids raise)
+            lines += ["reset", "obs history", "wsnap"]
+            tr.reset()
+            for _ in range(rng.randint(1, gen.num_ops(jobs))):
+                if tr.done():
+                    break
+                j, p, m = gen.gen_valid_request(rng, tr, "one_job_first")
+                tr.take(j)
+                lines.append(f"disp {j} {p} {m}")
+            lines += [f"unsub {k}" for k in range(hid + 1)] + ["reset"]
+            tr.reset()
+            while not tr.done():
+                j, p, m = gen.gen_valid_request(rng, tr, "last_job_first")
+                tr.take(j)
+                lines.append(f"disp {j} {p} {m}")
+            lines.append("wsnap")
         meta = {"family": family, "filter": "none" if f is None else "+".join(f) or "empty-composite",
                 "flexible": gen.is_flexible(jobs), "accepted": n_acc,
                 # user subclasses of the library observers (found by create_or_get_observer(Base) through isinstance)
@@ -273,6 +291,22 @@ class Check(PropertyCheck):
             ctx.update(trace_len=0, expected_hist={}, sub_since={})
             return res
         cmd = line.split()[0]
+        # a history observer the caller unsubscribed keeps the record it had: nothing that happens afterwards (dispatches, resets, later
+        # episodes that schedule the same operations elsewhere) reaches it
+        frozen = ctx.setdefault("frozen", {})
+        if cmd == "inst":
+            frozen.clear()
+        if cmd == "unsub" and out == "ok":
+            k_ = int(line.split()[1])
+            if k_ < len(impl.heap) and impl.kinds[k_] == "history":
+                frozen[k_] = [(x.operation.operation_id, x.start_time, x.machine_id) for x in impl.heap[k_].history]
+        if cmd == "resub" and out == "ok":
+            frozen.pop(int(line.split()[1]), None)
+        for k_, rec_ in frozen.items():
+            now_ = [(x.operation.operation_id, x.start_time, x.machine_id) for x in impl.heap[k_].history]
+            if now_ != rec_:
+                res.append(("unsubscribed-changed", f"history observer {k_} was unsubscribed with the record {rec_}; after `{line}` it reads {now_}"))
+                frozen[k_] = now_
         subs_now = [o for o in d.subscribers]
         # observers constructed with subscribe=False stay out of the subscriber list until subscribed by hand
         det = ctx.setdefault("detached", set())
